@@ -201,7 +201,12 @@ def _datasets(cfg, dseed):
             elif arr_ == 2:
                 lab = lab[::-1]
             df.index = lab
-        out.append(RAMDataset(df, "data%d" % d))
+        if not cfg["cv"].startswith("presplit") and (dseed + d) % 4 == 3:
+            # instance labels that are not in sorted order (a shuffled frame): instances are addressed by position, whatever their labels
+            df.index = [int(v) for v in np.random.default_rng([dseed, d, 5]).permutation(n) * 3 + 1]
+        ds_ = RAMDataset(df.copy(), "data%d" % d)
+        ds_.frame0 = df               # the frame as the harness made it: expectations are computed from this one, not from what load() hands back
+        out.append(ds_)
     return out
 
 
@@ -309,7 +314,7 @@ def _check_complete_store(ctx, cfg, path, res, ds, pot, save, where):
         ctx.check("exactly-once", pk == exp_pk, "store:fitted-strategies-missing-or-extra", "saved fitted strategies are not exactly one per strategy, dataset and fold (%s)" % where,
                   missing=sorted(set(exp_pk) - set(pk))[:5], extra=sorted(set(pk) - set(exp_pk))[:5])
     # stored content equals what an independent estimator predicts on that fold
-    data = {d.name: d.load() for d in ds}
+    data = {d.name: getattr(d, "frame0", None) if getattr(d, "frame0", None) is not None else d.load() for d in ds}
     for dname, df in data.items():
         y = df["target"]
         for f, (tr, te) in enumerate(_folds(cfg, df)):
@@ -404,7 +409,7 @@ def _wrapped(case, ctx, base):
         return
     differs_from_inner = 0
     for d in ds:
-        df = d.load()
+        df = getattr(d, "frame0", None) if getattr(d, "frame0", None) is not None else d.load()
         Xall, yall = df[[c for c in df.columns if c != "target"]], np.asarray(df["target"])
         for f, (tr, te) in enumerate(_folds(cfg, df)):
             expected = {}
@@ -596,7 +601,7 @@ def _ram(case, ctx):
     exp = sorted("%s_%s_%s_%d" % (s, d, p, f) for s, d, f, p in keys)
     ctx.check("exactly-once", got == exp and not crashed, "store:ram:records-missing-or-extra", "in-memory store does not hold exactly one record per key", got=got[:5], expected=exp[:5])
     for d in ds:
-        df = d.load()
+        df = getattr(d, "frame0", None) if getattr(d, "frame0", None) is not None else d.load()
         for f, (tr, te) in enumerate(_folds(cfg, df)):
             for s in range(cfg["ns"]):
                 w = res.results.get("strat%d_%s_test_%d" % (s, d.name, f))
@@ -636,7 +641,7 @@ def _ram(case, ctx):
         ctx.check("overwrite.recomputes-all", not crashed2 and res2 is res, "store:ram:second-run-crashed", "a second run into the same in-memory store raised")
         stale = 0
         for d in ds2:
-            df = d.load()
+            df = getattr(d, "frame0", None) if getattr(d, "frame0", None) is not None else d.load()
             for f, (tr, te) in enumerate(_folds(cfg, df)):
                 for s_ in range(cfg["ns"]):
                     w = res.results.get("strat%d_%s_test_%d" % (s_, d.name, f))
